@@ -808,6 +808,21 @@ def k_compose(eng, which):
                     return True, Obj("SixtyCycle", r)
                 if callee == "SixtyCycleDay::get_solar_day":
                     return True, Rec(c, "civil_day", "SolarDay")
+            # another instant (the lunar hour's instant stepped by some seconds) has a view of its own, with pillars nothing is known about
+            if callee == "LunarHour::get_hour":
+                hh = c.fresh_value("clock_hour", "usize")
+                path.pc.append(T("(<= 0 %s 23)" % hh.s, "Bool"))
+                return True, hh
+            if callee == "LunarHour::get_solar_time":
+                return True, Rec(c, "civil_instant", "SolarTime")
+            if callee == "<SolarTime as Tyme>::next" and a and isinstance(a[0], Rec) and a[0].name == "civil_instant" and isinstance(a[1], T) and a[1].c != 0:
+                return True, Rec(c, "another_instant", "SolarTime")
+            if callee in ("SolarTime::get_sixty_cycle_hour",) and a and isinstance(a[0], Rec) and a[0].name == "another_instant":
+                return True, Rec(c, "view_of_another_instant", "SixtyCycleHour")
+            if a and isinstance(a[0], Rec) and a[0].name == "view_of_another_instant" and callee in ("SixtyCycleHour::get_year", "SixtyCycleHour::get_month", "SixtyCycleHour::get_day", "SixtyCycleHour::get_sixty_cycle"):
+                v = c.fresh_value("pillar_of_another_instant", "usize")
+                path.pc.append(T("(<= 0 %s 59)" % v.s, "Bool"))
+                return True, Obj("SixtyCycle", v)
             if a and a[0] is view and callee == "SixtyCycleHour::get_sixty_cycle_day":
                 return True, view.fields[view_day_k]
             if a and a[0] is view and callee == "SixtyCycleHour::get_solar_time":
